@@ -1924,6 +1924,8 @@ def SIR_homogeneous_meanfield_from_graph(G, tau, gamma, initial_infecteds=None,
         I0 = rho*G.order()
     else:
         I0 = 1.
+    if initial_recovereds is None:
+        initial_recovereds = []
     R0 = len(initial_recovereds)
         
     S0 = G.order()-I0 - R0
